@@ -194,14 +194,14 @@ pub async fn query_streams(rng: &mut Rng, out: &mut Out, stats: &mut serde_json:
     }
     let directed: Vec<(Vec<REntity>, &str)> = vec![
         (vec![top(None, 0, None, vec![named("name"), RField::Sub(None, s("pets"), vec![named("name")])])], "plain nested query"),
-        (vec![top(Some("group"), 0, None, vec![named("name")])], "K3 top-level alias is an SQL keyword"),
-        (vec![top(Some("1a"), 0, None, vec![named("name")])], "K3 top-level alias starts with a digit"),
-        (vec![top(None, 3, None, vec![named("name")])], "K3 entity without namespace named Group"),
-        (vec![top(None, 0, None, vec![named("name"), RField::Sub(None, s("order"), vec![named("name")])])], "K3 reference field named order"),
-        (vec![top(None, 0, None, vec![RField::Sub(Some(s("index")), s("pets"), vec![named("name")])])], "K3 sub-selection alias is an SQL keyword"),
+        (vec![top(Some("group"), 0, None, vec![named("name")])], "former K3 top-level alias is an SQL keyword (fixed 601cdc3, must be Ok)"),
+        (vec![top(Some("1a"), 0, None, vec![named("name")])], "former K3 top-level alias starts with a digit (fixed 601cdc3, must be Ok)"),
+        (vec![top(None, 3, None, vec![named("name")])], "former K3 entity without namespace named Group (fixed 601cdc3, must be Ok)"),
+        (vec![top(None, 0, None, vec![named("name"), RField::Sub(None, s("order"), vec![named("name")])])], "former K3 reference field named order (fixed 601cdc3, must be Ok)"),
+        (vec![top(None, 0, None, vec![RField::Sub(Some(s("index")), s("pets"), vec![named("name")])])], "former K3 sub-selection alias is an SQL keyword (fixed 601cdc3, must be Ok)"),
         (vec![top(Some("été"), 0, None, vec![RField::Sub(Some(s("名前")), s("pets"), vec![named("name")])])], "Unicode aliases"),
         (vec![top(Some("key"), 0, None, vec![RField::Named(Some(s("group")), s("name"))])], "keyword that falls back to an identifier; scalar alias is only quoted"),
-        (vec![top(None, 0, None, vec![RField::Json(s("a"), s("jd"))])], "K4 json selector on a Json field with a default"),
+        (vec![top(None, 0, None, vec![RField::Json(s("a"), s("jd"))])], "former K4 json selector on a Json field with a default (fixed 601cdc3, must be Ok)"),
         (vec![top(None, 0, None, vec![RField::Json(s("a"), s("jn")), named("dflt"), named("jd")])], "json selector without default; defaults on plain selections"),
         (vec![top(None, 0, Some(""), vec![named("name")])], "K5 empty search text"),
         (vec![top(None, 0, Some("probe"), vec![named("name")])], "search for a word"),
@@ -268,7 +268,7 @@ pub async fn query_streams(rng: &mut Rng, out: &mut Out, stats: &mut serde_json:
     inst.close();
     // ---- generated data models and queries
     let n_models = scale(7, 40);
-    let per_model = scale(60, 250);
+    let per_model = scale(45, 250);
     let mut depth_hist = [0usize; 8];
     for mi in 0..n_models {
         let odd = if mi % 2 == 0 { 35 } else { 12 };
